@@ -12,9 +12,10 @@ from sv import core
 
 PROPERTY = "C06"
 GEN = []
-PROPS = ["ScoresVerif/Props/C06.lean", "ScoresVerif/Props/C06Bridge.lean"]
+PROPS = ["ScoresVerif/Props/C06.lean", "ScoresVerif/Props/C06Bridge.lean", "ScoresVerif/Props/C06Tw.lean",
+         "ScoresVerif/Props/C06TwBridge.lean"]
 DRIVER_DEPS = ["ScoresVerif.Driver.C06"]
-AUDIT_FILES = ["ScoresVerif/Lemmas/Bridge.lean", "ScoresVerif/Lemmas/CrpsEns.lean", "ScoresVerif/Lemmas/CrpsEnsBrier.lean", "ScoresVerif/Model/CrpsEns.lean", "ScoresVerif/Spec/CrpsEns.lean"]
+AUDIT_FILES = ["ScoresVerif/Lemmas/Bridge.lean", "ScoresVerif/Lemmas/CrpsEns.lean", "ScoresVerif/Lemmas/CrpsEnsBrier.lean", "ScoresVerif/Lemmas/CrpsEnsC06Tw.lean", "ScoresVerif/Lemmas/C06TwBridge.lean", "ScoresVerif/Model/CrpsEns.lean", "ScoresVerif/Spec/CrpsEns.lean"]
 LEVEL = "proof"
 TRUSTED = ["hand-written model Model/CrpsEns.lean of crps_for_ensemble / tw variants / brier per-case formula "
            "(tied by differential correspondence only, no translator)",
@@ -33,16 +34,19 @@ MANIFEST = dict(
          "every split a<=b, both methods and all four components, invariance under member permutation (all components, incl. NaN), translation and "
          "|a|-scaling, non-negativity and zero iff every member equals the observation, and the exact threshold integral of the documented "
          "ensemble Brier score (with and without fair correction; the per-case Brier formula of the model is proved equal to "
-         "it) equals the 'ecdf' / 'fair' CRPS. The model is tied to the code by a "
+         "it) equals the 'ecdf' / 'fair' CRPS; and each threshold-weighted value on its own (lower / upper tail, interval, generic "
+         "tw with a clip chaining function; scalar or per-case thresholds; NaN members dropped) equals the exact integral of "
+         "1[a,b)(t)(F_ens(t) - 1{t>=obs})^2 of the untransformed ensemble ('fair': minus the offset of the clipped members), "
+         "also as a Lebesgue integral over [a,b] (Props/C06Tw.lean, Props/C06TwBridge.lean). The model is tied to the code by a "
          "differential correspondence over all four public functions (both methods, components, weights, reductions, scalar "
          "and per-case thresholds, NaN members); the same statements plus 'tw value = weighted integral' and 'integral of "
          "the real brier_score_for_ensemble over all thresholds = CRPS (fair and not)' are evaluated on the implementation "
          "against the Lean integral spec in exact arithmetic, exhaustively for <=3 members over a 4-value pool in thorough.",
     note="Trusted: Lean kernel; propext/Classical.choice/Quot.sound; the hand-written model (no translator: the code uses "
          "isel loops / concat) tied only by correspondence on dyadic inputs with tolerance 1e-9; SV.Fl (IEEE minus rounding, "
-         "overflow, signed zero); 'integral of a finite step function = sum of width x value'. Not proved, only compared: "
-         "each tw value = weighted integral individually (their sum is proved, incl. the under/over/spread components), "
-         "weights/mean reduction. Not modelled: alignment of differently ordered coordinates (C04/F12), "
+         "overflow, signed zero). Not proved, only compared: the under/over components of a single tw value as weighted "
+         "integrals (their sums over the partition are proved), weights/mean reduction beyond 'per-case values are the per-case "
+         "integrals'. Not modelled: alignment of differently ordered coordinates (C04/F12), "
          "gather_dimensions (C01), infinite inputs. Fair CRPS with one valid member is NaN (F8, not a defect); in that "
          "situation the NaN-skipping mean over cases averages different case sets per component, so total = under+over-"
          "spread is checked per case.",
